@@ -83,8 +83,17 @@ func init() {
 	}
 	reg(vrtPath+"Range", func(in *Interp, g *Goroutine, fn *ssa.Function, args []Value) (Value, *tailCall) {
 		lo, hi := args[0].(*Term), args[1].(*Term)
-		x := in.freshSym(64, "vrt", "range")
-		in.assume(in.tt.And(in.tt.Cmp(OpSle, lo, x), in.tt.Cmp(OpSle, x, hi)))
+		if in.concreteMode || !lo.IsConst() || !hi.IsConst() {
+			x := in.freshSym(64, "vrt", "range")
+			in.assume(in.tt.And(in.tt.Cmp(OpSle, lo, x), in.tt.Cmp(OpSle, x, hi)))
+			return x, nil
+		}
+		// the range is part of the symbol's name so that the hint is valid on every path
+		x := in.freshSymSuffix(64, "vrt", "range", fmt.Sprintf("_r%d_%d", uint64(lo.SVal()), uint64(hi.SVal())))
+		delete(in.tt.hints, x.id)
+		c := in.tt.And(in.tt.Cmp(OpSle, lo, x), in.tt.Cmp(OpSle, x, hi))
+		in.assume(c)
+		in.tt.hints[x.id] = [2]int64{lo.SVal(), hi.SVal()}
 		return x, nil
 	})
 	reg(vrtPath+"Choice", func(in *Interp, g *Goroutine, fn *ssa.Function, args []Value) (Value, *tailCall) {
@@ -566,7 +575,7 @@ func init() {
 		key := types.TypeString(iv.typ, nil)
 		o := in.rtypeObjs[key]
 		if o == nil {
-			o = &Object{id: -len(in.rtypeObjs) - 1, cells: make([]Value, 1), note: "rtype " + key}
+			o = &Object{id: -len(in.rtypeObjs) - 1, cells: make([]Value, 1), note: "rtype " + key, host: iv.typ}
 			in.rtypeObjs[key] = o
 		}
 		return IfaceV{typ: types.NewPointer(rt.Type()), val: PtrV{obj: o}}, nil
@@ -576,6 +585,23 @@ func init() {
 		return in.tt.Const(8, 0), nil
 	})
 	reg("crypto/internal/fips140.setIndicator", func(in *Interp, g *Goroutine, fn *ssa.Function, args []Value) (Value, *tailCall) { return nil, nil })
+
+	reg("(*reflect.rtype).NumField", func(in *Interp, g *Goroutine, fn *ssa.Function, args []Value) (Value, *tailCall) {
+		p := args[0].(PtrV)
+		if t, ok := p.obj.host.(types.Type); ok {
+			if st, ok := t.Underlying().(*types.Struct); ok {
+				return in.ci(st.NumFields()), nil
+			}
+		}
+		panic(unsupported("reflect NumField on non-struct"))
+	})
+	reg("(*reflect.rtype).String", func(in *Interp, g *Goroutine, fn *ssa.Function, args []Value) (Value, *tailCall) {
+		p := args[0].(PtrV)
+		if t, ok := p.obj.host.(types.Type); ok {
+			return concStr(types.TypeString(t, func(p *types.Package) string { return p.Name() })), nil
+		}
+		panic(unsupported("reflect String"))
+	})
 
 	// ----- os / time / misc -----
 	reg("os.Getenv", func(in *Interp, g *Goroutine, fn *ssa.Function, args []Value) (Value, *tailCall) {
@@ -607,6 +633,15 @@ func init() {
 	})
 	reg("sort.SliceStable", func(in *Interp, g *Goroutine, fn *ssa.Function, args []Value) (Value, *tailCall) {
 		return in.sortSlice(g, fn, args, true)
+	})
+	reg("internal/strconv.ParseUint", func(in *Interp, g *Goroutine, fn *ssa.Function, args []Value) (Value, *tailCall) {
+		return in.parseIntModel(fn, args, false)
+	})
+	reg("internal/strconv.ParseInt", func(in *Interp, g *Goroutine, fn *ssa.Function, args []Value) (Value, *tailCall) {
+		return in.parseIntModel(fn, args, true)
+	})
+	reg("internal/strconv.Atoi", func(in *Interp, g *Goroutine, fn *ssa.Function, args []Value) (Value, *tailCall) {
+		return in.parseIntModel(fn, []Value{args[0], in.ci(10), in.ci(0)}, true)
 	})
 	reg("strconv.Itoa", func(in *Interp, g *Goroutine, fn *ssa.Function, args []Value) (Value, *tailCall) {
 		return in.fmtInt(args[0].(*Term), true, 10, false), nil
@@ -858,3 +893,94 @@ func (in *Interp) sortSlice(g *Goroutine, fn *ssa.Function, args []Value, stable
 
 var _ = fmt.Sprintf
 var _ = strings.Join
+
+// parseIntModel is a semantic model of internal/strconv.ParseUint / ParseInt / Atoi for
+// base 10 and strings of concrete length < 19 whose bytes may be symbolic.  It forks
+// once on "all digits" (and on the sign), instead of once per digit and overflow test
+// as the real loop does.  Anything else is declined and the real code is executed.
+func (in *Interp) parseIntModel(fn *ssa.Function, args []Value, signed bool) (Value, *tailCall) {
+	tt := in.tt
+	decline := func() (Value, *tailCall) {
+		if fn.Name() == "Atoi" {
+			return nil, &tailCall{fn: &FuncV{fn: fn, noIntr: true}, args: args[:1]}
+		}
+		return nil, &tailCall{fn: &FuncV{fn: fn, noIntr: true}, args: args}
+	}
+	s := args[0].(*StrV)
+	bt, bs := args[1].(*Term), args[2].(*Term)
+	if !bt.IsConst() || !bs.IsConst() || bt.SVal() != 10 || !s.isSym || s.Len() > 19 {
+		return decline()
+	}
+	bitSize := int(bs.SVal())
+	if bitSize == 0 {
+		bitSize = 64
+	}
+	if bitSize < 1 || bitSize > 64 {
+		return decline()
+	}
+	et := fn.Pkg.Type("Error")
+	if et == nil {
+		return decline()
+	}
+	errv := func(name string) Value {
+		c := fn.Pkg.Const(name)
+		if c == nil {
+			panic(unsupported("internal/strconv." + name + " not found"))
+		}
+		return IfaceV{typ: et.Type(), val: in.constVal(c.Value)}
+	}
+	zeroRes := func(v *Term, e Value) (Value, *tailCall) { return TupleV{v, e}, nil }
+	if s.Len() == 0 {
+		return zeroRes(tt.Const(64, 0), errv("ErrSyntax"))
+	}
+	ts := s.Terms(tt)
+	neg := false
+	if signed {
+		if in.concBool(tt.Eq(ts[0], tt.Const(8, '-')), "ParseInt sign") {
+			neg = true
+			ts = ts[1:]
+		} else if in.concBool(tt.Eq(ts[0], tt.Const(8, '+')), "ParseInt sign") {
+			ts = ts[1:]
+		}
+		if len(ts) == 0 {
+			return zeroRes(tt.Const(64, 0), errv("ErrSyntax"))
+		}
+	}
+	allDigits := tt.True
+	for _, c := range ts {
+		allDigits = tt.And(allDigits, tt.And(tt.Cmp(OpUle, tt.Const(8, '0'), c), tt.Cmp(OpUle, c, tt.Const(8, '9'))))
+	}
+	if !in.concBool(allDigits, "ParseInt digits") {
+		return zeroRes(tt.Const(64, 0), errv("ErrSyntax"))
+	}
+	n := tt.Const(64, 0)
+	pow := uint64(1)
+	for i := len(ts) - 1; i >= 0; i-- {
+		d := tt.ZExt(tt.Bin(OpSub, ts[i], tt.Const(8, '0')), 64)
+		n = tt.Bin(OpAdd, n, tt.Bin(OpMul, d, tt.Const(64, pow)))
+		pow *= 10
+	}
+	// at most 19 digits: < 10^19 < 2^64, no 64-bit unsigned overflow; range checks below
+	if !signed {
+		if bitSize < 64 {
+			maxv := uint64(1)<<uint(bitSize) - 1
+			if in.concBool(tt.Cmp(OpUlt, tt.Const(64, maxv), n), "ParseUint range") {
+				return zeroRes(tt.Const(64, maxv), errv("ErrRange"))
+			}
+		}
+		return zeroRes(n, IfaceV{})
+	}
+	{
+		cutoff := uint64(1) << uint(bitSize-1)
+		if !neg && in.concBool(tt.Cmp(OpUle, tt.Const(64, cutoff), n), "ParseInt range") {
+			return zeroRes(tt.Const(64, cutoff-1), errv("ErrRange"))
+		}
+		if neg && in.concBool(tt.Cmp(OpUlt, tt.Const(64, cutoff), n), "ParseInt range") {
+			return zeroRes(tt.Const(64, -cutoff), errv("ErrRange"))
+		}
+	}
+	if neg {
+		n = tt.Neg(n)
+	}
+	return zeroRes(n, IfaceV{})
+}
